@@ -798,6 +798,13 @@ class Gen:
             self.feat("guard-over-initial-draw-only")
         elif prof == "guarded" or (self.fin and r.random() < 0.15):
             guard = self.make_guard()
+            if "g" not in self.fin and r.random() < 0.18:
+                # ... conjoined with a variable that is drawn once before the loop and never assigned in the body
+                q = r.choice(PROBS[:9])
+                self.init.append(("assign", "g", ("draw", "Bernoulli", [num(q)])))
+                self.fin["g"] = {F(0), F(1)}
+                guard = ("and", guard, ("atom", var("g"), "==", num(1))) if r.random() < 0.7 else ("and", ("atom", var("g"), "==", num(1)), guard)
+                self.feat("guard-mixes-reassigned-and-initial-only-variable")
         if self.fin and self.data and guard != ("true",) and r.random() < 0.2:
             # the body STARTS with an if / elif whose conditions are conjunctions (no plain assignment before it): the first flattened
             # assignments carry guard && (c1 && c2); the recovered loop guard must still be the guard itself
@@ -1002,7 +1009,12 @@ class Gen:
         v = r.choice(names)
         vals = sorted(self.fin[v])
         x = r.random()
-        if x < 0.12 and all(q.denominator == 1 for q in vals):
+        if len(names) >= 2 and x < 0.1:
+            # a disjunction / conjunction of two atoms over two DIFFERENT variables (both usually reassigned in the body)
+            v2 = r.choice([n_ for n_ in names if n_ != v])
+            g = (r.choice(["or", "or", "and"]), ("atom", var(v), "==", num(r.choice(vals))), ("atom", var(v2), "==", num(r.choice(sorted(self.fin[v2])))))
+            self.feat("guard-two-variables-" + g[0])
+        elif x < 0.2 and all(q.denominator == 1 for q in vals):
             # overlapping alternatives over the same variable: v <= a || v == a
             a = r.choice(vals)
             g = ("or", ("atom", var(v), r.choice(["<=", ">="]), num(a)), ("atom", var(v), "==", num(a)))
